@@ -14,6 +14,7 @@ import (
 	"os"
 	"sort"
 	"strings"
+	"time"
 
 	"github.com/awslabs/ar-go-tools/analysis/lang"
 	"golang.org/x/tools/go/ssa"
@@ -31,13 +32,23 @@ func main() {
 	rep := lib.NewReport("C12")
 	rep.Rule = "generated pointer programs (see C11): every call passes a unique site constant, every function logs (its id, the site) on entry; distinct = distinct (call form, callee set size, via-wrapper) per call site text; non-trivial = dynamic / invoke / go / defer call sites"
 	r := lib.Rand("c12")
-	progs, cases := 2, 60
+	progs, cases := 3, 50
 	if lib.Thorough() {
 		progs, cases = 8, 100
 	}
 	rep.Extra["programs"] = progs
 	rep.Extra["cases_per_program"] = cases
+	start := time.Now()
+	budget := 110 * time.Second // after this much wall time no further program is started (the first always runs)
+	if lib.Thorough() {
+		budget = 25 * time.Minute
+	}
 	for pi := 0; pi < progs; pi++ {
+		if pi > 0 && time.Since(start) > budget {
+			rep.Notes = append(rep.Notes, fmt.Sprintf("time budget reached after %d of %d programs", pi, progs))
+			break
+		}
+		rep.Extra["programs_run"] = pi + 1
 		o := gen.PtrOpts{Cases: cases, Stmts: 8 + r.Intn(8), Funcs: 2 + r.Intn(3)}
 		if pi > 0 { // the first program has every feature; the others vary shape and feature set
 			o = gen.PtrOpts{Cases: cases, Stmts: 5 + r.Intn(22), Funcs: 1 + r.Intn(5), NoGo: r.Intn(6) == 0,
